@@ -37,6 +37,40 @@ CLAIMED = {
             "schemes, several hash seeds) + random DFAs is judged by TLC against FA.tla.",
             "trusted: TLC, harness/abstraction.py, FA.tla; <= 7 states; one recorded finding (names with commas)",
             "TLA+ models with nondeterministic set order (TLC exhaustive) + TLC trace validation of recorded calls"),
+    "C05": ("5/C05",
+            "regexp_simplify, regexp_accepts_word (and regexp_words_up_to_n) are transcribed into TLA+ (RegexCode.tla) "
+            "and TLC evaluates, on every tree with <= 2 (3) operators over {0,1,a,b}: simplification keeps the "
+            "language exactly (Glushkov automata + subset-product) and never grows, the matcher equals the "
+            "denotational semantics (position DP for star) on all words <= 3 (4).  The real functions are bound by "
+            "judging their results on the same trees + random and 'related-subterm' trees with TLC.  Executable "
+            "reference semantics + exhaustive evaluation; not a behavioural model (DESIGN 1, item 3).",
+            "trusted: TLC, abstraction.py, Regex.tla (Matches cross-checked against Glushkov in the model run)",
+            "TLA+ transcription checked exhaustively by TLC + TLC trace validation of recorded calls"),
+    "C06": ("5/C06",
+            "TLC checks GnfaRip (dfa_to_gnfa + gnfa_minimize with symbolic regexp edge labels and the transcribed "
+            "simplifier) over all DFA(2,{a,b}), DFA(3,{a,b}), DFA(3,{a}) x every elimination order: the extracted "
+            "expression is exactly equivalent to the DFA.  Real regexp_to_nfa / dfa_to_regexp results (small trees "
+            "exhaustively, random trees, DFAs under renamings and hash seeds = elimination orders, 3-symbol "
+            "alphabets) are judged exactly by TLC (Glushkov + subset-product).",
+            "trusted: TLC, abstraction.py, Regex.tla/FA.tla; DFA state names other than start/accept",
+            "TLA+ model with nondeterministic elimination order (TLC exhaustive) + TLC trace validation"),
+    "C14": ("5/C14",
+            "The reference language operations of FA.tla (product / backward-set / visited-F / reach-again, decided "
+            "exactly for all word lengths) are themselves TLC-checked against word-level definitions (Lemmas.tla); "
+            "every real construction result (unary on DFA(3,{a,b}), products on all pairs of DFA(2,{a,b}), random and "
+            "partial DFAs) and every finite-language helper result (all 128 languages over words <= 2, sampled pairs) "
+            "is judged by TLC.  Definitions only - no behavioural model (DESIGN 5/C14).",
+            "trusted: TLC, abstraction.py, FA.tla as cross-checked by Lemmas.tla",
+            "TLC-checked reference semantics (lemmas) + TLC trace validation of recorded calls"),
+    "C20": ("5/C20",
+            "TLC checks Iso (dfa_isomorphic1 as a worklist with arbitrary pick order) over all pairs of DFA(2,{a,b}), "
+            "DFA(2,{a,b}) x DFA(3,{a,b}), DFA(3,{a})^2: answer = existence of a bijection (brute force), termination; "
+            "the model also shows the pinned variant and an 'inverse-only' repair to be wrong.  Both real variants on "
+            "all 4096 ordered pairs of DFA(2,{a,b}), both argument orders, renamed copies (+ flipped bit), unreachable "
+            "states, duplicated states are judged by TLC; calls that do not return within 3 s count as "
+            "non-termination.",
+            "trusted: TLC, abstraction.py, FA.tla IsoExists; wall-clock limit for termination",
+            "TLA+ model with nondeterministic pick order (TLC exhaustive) + TLC trace validation"),
 }
 
 REASON_TODO = "check not built yet (work in progress; see DESIGN.md section 5)"
